@@ -15,10 +15,15 @@ Definition dec_pair (v : vl) : option (list N * list N) :=
   | _ => None
   end.
 
-Definition dec_op (v : vl) : option (option bytes) :=
+(* op: roll as is | write then roll | (2 name value): the process sets an environment variable
+   (the archive names are expanded at every roll, fixed_window.rs:217-227, so later rolls use it) *)
+Inductive cop := ORoll (w : option bytes) | OSetEnv (k v : list N).
+
+Definition dec_op (v : vl) : option cop :=
   match v with
-  | VL [VN 0] => Some None
-  | VL [VN _; VS x] => Some (Some x)
+  | VL [VN 0] => Some (ORoll None)
+  | VL [VN 2; VS k; VS x] => Some (OSetEnv k x)
+  | VL [VN _; VS x] => Some (ORoll (Some x))
   | _ => None
   end.
 
@@ -28,15 +33,18 @@ Definition enc_fs (f : fs) : vl := VL (map (fun pc => VL [VS (fst pc); VS (snd p
 
 Definition vpanic : vl := VS [112; 97; 110; 105; 99].
 
-Fixpoint run_ops (roller : path -> fs -> outcome) (file : path) (ops : list (option bytes)) (f : fs)
+Definition envt := list (list N * list N).
+
+Fixpoint run_ops (roller : envt -> path -> fs -> outcome) (env : envt) (file : path) (ops : list cop) (f : fs)
   : option (list vl) :=
   match ops with
   | [] => Some []
-  | o :: rest =>
+  | OSetEnv k v :: rest => run_ops roller ((k, v) :: env) file rest f    (* the first binding of a name wins *)
+  | ORoll o :: rest =>
     let f1 := match o with Some x => write file x f | None => f end in
-    match roller file f1 with
-    | Done g => option_map (cons (VL [VN 0; enc_fs g])) (run_ops roller file rest g)
-    | Failed g => option_map (cons (VL [VN 1; enc_fs g])) (run_ops roller file rest g)
+    match roller env file f1 with
+    | Done g => option_map (cons (VL [VN 0; enc_fs g])) (run_ops roller env file rest g)
+    | Failed g => option_map (cons (VL [VN 1; enc_fs g])) (run_ops roller env file rest g)
     | Panicked => None
     end
   end.
@@ -46,11 +54,10 @@ Definition c07_run (v : vl) : vl :=
   | VL [VN kind; VN b; VN c; VN gz; VS pat; env; VS file; init; ops] =>
     match val_list dec_pair env, val_list dec_pair init, val_list dec_op ops with
     | Some env, Some init, Some ops =>
-      let name := archive_name env pat in
       let cm : cmode := if gz =? 0 then None else Some gz_tag in
-      let roller := if kind =? 0 then (fun file f => roll name cm None b c file f)
-                    else (fun file f => delete_roll file f) in
-      match run_ops roller file ops (mkfs init) with
+      let roller := if kind =? 0 then (fun (e : envt) file f => roll (archive_name e pat) cm None b c file f)
+                    else (fun (_ : envt) file f => delete_roll file f) in
+      match run_ops roller env file ops (mkfs init) with
       | Some l => VL l
       | None => vpanic
       end
